@@ -387,7 +387,16 @@ fn run_e1store(args: &Args, run_seed: u64, known: &HashSet<String>, dir: &std::p
     local.runs += 1 + r.fault_runs;
     local.steps += trace.steps.len() as u64 * (1 + r.fault_runs);
     local.nontrivial.extend(r.nontrivial.iter().copied());
-    let _ = want_logs;
+    if want_logs {
+        let mut f = util::Fnv::new();
+        f.add_u64(r.fault_runs);
+        f.add_u64(r.fired);
+        for x in &r.nontrivial {
+            f.add_u64(*x);
+        }
+        f.add_u64(r.violation.is_some() as u64);
+        local.logs.push((run_seed, f.0));
+    }
     if let Some(e) = r.harness_error {
         local.harness_errors.push(format!("seed {run_seed}: {e}"));
     }
@@ -644,6 +653,15 @@ fn run_e5d(args: &Args, cur_prop: &str, index: u64, run_seed: u64, dir: &std::pa
     local.traces.insert(d);
     if !o.sleeps.is_empty() || kind == 1 {
         local.nontrivial.insert(d);
+    }
+    {
+        let mut f = util::Fnv::new();
+        f.add_u64(o.sim_ms);
+        for x in &o.sleeps {
+            f.add_u64(*x);
+        }
+        f.add_u64(o.violation.is_some() as u64);
+        local.logs.push((run_seed, f.0));
     }
     let tj = json!({"engine":"e5d","property":"C18","release_ms":release.to_string(),"kind":kind,"via_rln":via_rln,"seed":run_seed.to_string(),"observed_sleeps_ms":o.sleeps});
     if local.samples.len() < 2 {
